@@ -292,11 +292,22 @@ func (s *Session) setStorageCallbacks() {
 			return true
 		}
 
-		resendMessages, err := s.messageStorage.Messages(fix.StorageID{
+		storageID := fix.StorageID{
 			Sender: s.LogonSettings.SenderCompID,
 			Target: s.LogonSettings.TargetCompID,
 			Side:   fix.Outgoing,
-		}, resendMsg.BeginSeqNo(), resendMsg.EndSeqNo())
+		}
+
+		// EndSeqNo = 0 requests everything up to the last message sent.
+		endSeqNo := resendMsg.EndSeqNo()
+		if endSeqNo == 0 {
+			endSeqNo, err = s.counter.GetCurrSeqNum(storageID)
+			if err != nil {
+				return true
+			}
+		}
+
+		resendMessages, err := s.messageStorage.Messages(storageID, resendMsg.BeginSeqNo(), endSeqNo)
 		if err != nil {
 			return true
 		}
